@@ -148,8 +148,10 @@ async fn run(input: RunInput, mode: Mode) -> RunOutput {
     cfg.shutdown_idle_timeout_ms = Some(500);
     // a frame limit on every node and, now and then, a request above it: that RPC fails (C15) and
     // nothing about the connection, the listing or the events may change because of it
+    // (not on every node: a sender without a limit gets its request refused by the receiver)
     let frame_limit = w.flag("frame_limit", 0.25).then(|| w.param("max_frame_size", 2_000, 20_000) as usize);
-    cfg.max_frame_size = frame_limit;
+    let limited: Vec<bool> = { let mut rl = w.rng("cfg:frame-limited-nodes"); (0..5).map(|_| rl.gen_bool(0.6)).collect() };
+    let cfg_for = |i: usize| { let mut c = cfg.clone(); c.max_frame_size = frame_limit.filter(|_| limited[i]); c };
     let mut link = LinkCfg::clean(200, lat_max);
     if faulty {
         link.drop = w.param("drop_pct", 0, 10) as f64 / 100.0;
@@ -160,7 +162,7 @@ async fn run(input: RunInput, mode: Mode) -> RunOutput {
     for i in 0..n {
         let svc = Svc::echo(&w);
         let svc_h = svc.handle();
-        let node = w.start_node(w.spec(i as u8 + 1, cfg.clone()), svc).unwrap();
+        let node = w.start_node(w.spec(i as u8 + 1, cfg_for(i)), svc).unwrap();
         let log = start_watch(&w, &node, i, 0);
         let subs = vec![Subscription::new(&node.net).unwrap()];
         slots.push(Slot { node, log, subs, incarnation: 0, svc: svc_h });
@@ -353,7 +355,7 @@ async fn run(input: RunInput, mode: Mode) -> RunOutput {
             }
             let _ = t0;
             let inc = slots[i].incarnation + 1;
-            let mut spec = w.spec(i as u8 + 1, cfg.clone());
+            let mut spec = w.spec(i as u8 + 1, cfg_for(i));
             spec.key = slots[i].node.key;
             let svc = Svc::echo(&w);
             let svc_h = svc.handle();
@@ -422,7 +424,7 @@ async fn run(input: RunInput, mode: Mode) -> RunOutput {
                     stale.push((i, j, h, w.now_ns()));
                 }
             }
-            let oversized = frame_limit.filter(|_| r_hangup.gen_bool(0.4));
+            let oversized = frame_limit.filter(|_| (limited[i] || limited[j]) && r_hangup.gen_bool(0.5));
             let body = match oversized {
                 Some(l) => Bytes::from(vec![7u8; l + 1 + (l / 3)]),
                 None => Bytes::from_static(b"ping"),
